@@ -9,6 +9,7 @@ package c14
 
 import (
 	"bufio"
+	"bytes"
 	"context"
 	"encoding/binary"
 	"encoding/json"
@@ -17,9 +18,11 @@ import (
 	"math/rand"
 	"net"
 	"os"
+	"os/exec"
 	"path/filepath"
 	"runtime"
 	"sort"
+	"strings"
 	"sync"
 	"testing"
 	"time"
@@ -46,9 +49,10 @@ const (
 )
 
 type schedule struct {
-	Prog  map[string][]string `json:"prog"`
-	Sops  []string            `json:"sops"`
-	Sched []string            `json:"sched"`
+	Prog    map[string][]string `json:"prog"`
+	Sops    []string            `json:"sops"`
+	Prefill bool                `json:"prefill"`
+	Sched   []string            `json:"sched"`
 }
 
 type stats struct {
@@ -57,6 +61,8 @@ type stats struct {
 	Unfinished  int            `json:"unfinished"`
 	Scenarios   int            `json:"scenarios"`
 	Stress      int            `json:"stress_runs"`
+	Bursts      int            `json:"burst_runs"`
+	BurstDied   int            `json:"burst_child_died"`
 	Events      int            `json:"events"`
 	Packets     int            `json:"packets_written"`
 	WireSeen    int            `json:"packets_on_wire"`
@@ -64,9 +70,31 @@ type stats struct {
 	Samples     []any          `json:"samples"`
 }
 
+// emitter is a trace sink: the buffered tracefmt.Writer, or the unbuffered lineWriter
+// of the child process (which must not lose lines when the process dies).
+type emitter interface{ Emit(tracefmt.Rec) }
+
+type lineWriter struct {
+	mu  sync.Mutex
+	f   *os.File
+	seq int
+}
+
+func (w *lineWriter) Emit(r tracefmt.Rec) {
+	w.mu.Lock()
+	defer w.mu.Unlock()
+	w.seq++
+	r["seq"] = w.seq
+	b, err := json.Marshal(r)
+	if err != nil {
+		panic(err)
+	}
+	w.f.Write(append(b, '\n'))
+}
+
 // rig is one real connection plus the independent far end.
 type rig struct {
-	tw       *tracefmt.Writer
+	tw       emitter
 	conn     netmc.MinecraftConn
 	far      net.Conn
 	sentinel chan uint32
@@ -78,7 +106,7 @@ type rig struct {
 	mu       sync.Mutex
 }
 
-func newRig(tw *tracefmt.Writer, writers []string) *rig {
+func newRig(tw emitter, writers []string) *rig {
 	a, b := net.Pipe()
 	conn, _ := netmc.NewMinecraftConn(context.Background(), a, proto.ServerBound,
 		10*time.Second, 10*time.Second, -1, nil)
@@ -165,10 +193,20 @@ func (r *rig) mkPacket(writer string, seq int, kind string) proto.Packet {
 
 // write performs one WritePacket call and logs call/ret around it.
 func (r *rig) write(thread, writer string, seq int, kind string) {
+	r.writeHow(thread, writer, seq, kind, true)
+}
+
+// writeHow: WritePacket (flush = true) or BufferPacket (the next flush carries it out).
+func (r *rig) writeHow(thread, writer string, seq int, kind string, flush bool) {
 	p := r.mkPacket(writer, seq, kind)
 	r.tw.Emit(tracefmt.Rec{"ev": "call", "thread": thread, "op": "write", "kind": kind,
-		"pkt": fmt.Sprintf("%s.%d", writer, seq)})
-	err := r.conn.WritePacket(p)
+		"pkt": fmt.Sprintf("%s.%d", writer, seq), "flush": flush})
+	var err error
+	if flush {
+		err = r.conn.WritePacket(p)
+	} else {
+		err = r.conn.BufferPacket(p)
+	}
 	res, txt := "ok", ""
 	if err != nil {
 		res, txt = "fail", err.Error()
@@ -262,11 +300,22 @@ func sortedKeys(m map[string][]string) []string {
 // A write is two segments (up to the gate pq.readptr, then the rest), a leave with a
 // queue to release is two (up to pq.release.begin, then the release), everything
 // else is one.
-func runSchedule(tw *tracefmt.Writer, st *stats, n int, s schedule, step time.Duration, outbound bool) {
+func runSchedule(tw emitter, st *stats, n int, s schedule, step time.Duration, outbound bool) {
 	writers := sortedKeys(s.Prog)
-	tw.Emit(tracefmt.Rec{"ev": "reset", "cap": 1024, "n": n, "mode": "sched", "outbound": outbound})
-	r := newRig(tw, writers)
-	c := sched.New(nil, "pq.readptr", "pq.release.begin")
+	tw.Emit(tracefmt.Rec{"ev": "reset", "cap": 1024, "n": n, "mode": "sched", "outbound": outbound, "prefill": s.Prefill})
+	r := newRig(tw, append(append([]string{}, writers...), "m"))
+	gates := []string{"pq.readptr", "pq.release.begin"}
+	if s.Prefill {
+		// the model starts in config with cap-1 packets held: get there, then also gate
+		// between the queue's bound check and its push
+		r.stateOp("main", "enter", false)
+		for k := 1; k <= 1023; k++ {
+			st.Packets++
+			r.writeHow("main", "m", k, "P", false)
+		}
+		gates = append(gates, "pq.queue.checked")
+	}
+	c := sched.New(nil, gates...)
 	c.Install()
 	ops := map[string][]string{} // model thread -> sched thread names
 	doneCh := map[string]chan struct{}{}
@@ -346,7 +395,7 @@ func indexAt(s string) int {
 }
 
 // Deterministic single-threaded scenarios (each op is a call/ret pair of thread "main").
-func runScenarios(tw *tracefmt.Writer, st *stats) {
+func runScenarios(tw emitter, st *stats) {
 	type op struct {
 		do   string // "P" | "K" | "enter" | "leave" | "enterOut" | "leaveOut" | "sync"
 		many int
@@ -406,7 +455,7 @@ func runScenarios(tw *tracefmt.Writer, st *stats) {
 }
 
 // Free-running stress without gates (meaningful under -race).
-func runStress(tw *tracefmt.Writer, st *stats, rng *rand.Rand, runs int) {
+func runStress(tw emitter, st *stats, rng *rand.Rand, runs int) {
 	for i := 0; i < runs; i++ {
 		nw := 2 + rng.Intn(3)
 		per := 5 + rng.Intn(20)
@@ -466,6 +515,100 @@ func runStress(tw *tracefmt.Writer, st *stats, rng *rand.Rand, runs int) {
 	}
 }
 
+// runBurst: many writers hand play-only packets to the connection at the same time while
+// it is in the configuration phase (BufferPacket, no flush in between), then leave.
+func runBurst(tw emitter, n int, rng *rand.Rand) {
+	nw := 4
+	per := 40 + rng.Intn(40)
+	rounds := 1 + rng.Intn(2)
+	var writers []string
+	for k := 0; k < nw; k++ {
+		writers = append(writers, fmt.Sprintf("w%d", k+1))
+	}
+	tw.Emit(tracefmt.Rec{"ev": "reset", "cap": 1024, "n": n, "mode": "burst", "writers": nw, "per": per, "rounds": rounds})
+	r := newRig(tw, writers)
+	seq := 0
+	for round := 0; round < rounds; round++ {
+		r.stateOp("main", "enter", rng.Intn(3) == 0)
+		start := make(chan struct{})
+		var wg sync.WaitGroup
+		for _, w := range writers {
+			w := w
+			base := seq
+			wg.Add(1)
+			go func() {
+				defer wg.Done()
+				<-start
+				for k := 1; k <= per; k++ {
+					r.writeHow(w, w, base+k, "P", false)
+				}
+			}()
+		}
+		close(start)
+		wg.Wait()
+		seq += per
+		r.stateOp("main", "leave", rng.Intn(3) == 0)
+		r.sync()
+	}
+	r.finish()
+}
+
+// TestBurstChild runs the bursts in a process of its own: a panic inside the queue must
+// not take the harness down with it.
+func TestBurstChild(t *testing.T) {
+	if os.Getenv("C14_CHILD") != "1" {
+		t.Skip("child only")
+	}
+	f, err := os.OpenFile(os.Getenv("C14_BURST_TRACE"), os.O_APPEND|os.O_CREATE|os.O_WRONLY, 0o644)
+	if err != nil {
+		t.Fatal(err)
+	}
+	defer f.Close()
+	tw := &lineWriter{f: f}
+	rng := rand.New(rand.NewSource(tracefmt.Seed()*7919 + 17))
+	for i := 0; i < tracefmt.EnvInt("C14_BURSTS", 0); i++ {
+		runBurst(tw, i, rng)
+	}
+}
+
+// bursts re-executes this test binary for the burst runs and copies their history into tw.
+func bursts(t *testing.T, tw *tracefmt.Writer, st *stats, n int) {
+	if n <= 0 {
+		return
+	}
+	path := filepath.Join(tracefmt.OutDir(), fmt.Sprintf("burst.%d.ndjson", os.Getpid()))
+	_ = os.Remove(path)
+	ctx, cancel := context.WithTimeout(context.Background(), 15*time.Minute)
+	defer cancel()
+	cmd := exec.CommandContext(ctx, os.Args[0], "-test.run=^TestBurstChild$", "-test.count=1", "-test.timeout=20m")
+	cmd.Env = append(os.Environ(), "C14_CHILD=1", "C14_BURST_TRACE="+path, fmt.Sprintf("C14_BURSTS=%d", n))
+	var ob bytes.Buffer
+	cmd.Stdout, cmd.Stderr = &ob, &ob
+	runErr := cmd.Run()
+	recs, _ := tracefmt.ReadNDJSON[tracefmt.Rec](path)
+	for _, r := range recs {
+		if r["ev"] == "reset" {
+			st.Bursts++
+		}
+		tw.Emit(r)
+	}
+	_ = os.Remove(path)
+	if runErr == nil {
+		return
+	}
+	out := ob.String()
+	if strings.Contains(out, "DATA RACE") && !strings.Contains(out, "panic:") && !strings.Contains(out, "fatal error") {
+		// all bursts ran; hand the race reports to the check through this test's output
+		t.Errorf("race detector fired in the burst child:\n%s", out)
+		return
+	}
+	if len(out) > 6000 {
+		out = out[:3000] + "\n...\n" + out[len(out)-3000:]
+	}
+	st.BurstDied++
+	tw.Emit(tracefmt.Rec{"ev": "died", "what": "burst child", "err": runErr.Error(), "output": out})
+}
+
 func TestSchedules(t *testing.T) {
 	file := os.Getenv("VERIF_SCHED_FILE")
 	if file == "" {
@@ -497,6 +640,7 @@ func TestSchedules(t *testing.T) {
 		runScenarios(tw, &st)
 	}
 	runStress(tw, &st, rng, tracefmt.EnvInt("VERIF_STRESS", 0))
+	bursts(t, tw, &st, tracefmt.EnvInt("VERIF_BURST", 0))
 	st.Events = tw.N
 	if err := tw.Close(); err != nil {
 		t.Fatal(err)
